@@ -249,4 +249,64 @@ theorem wrap_at_whitespace (text : Str) (w : Nat) :
 example : words "the value is non-copyable".toList
     = ["the".toList, "value".toList, "is".toList, "non-copyable".toList] := by decide
 
+/-! ## spans made from AST nodes (`to_span`, after fix d720416) -/
+
+/-- **C29 (byte offsets → columns)**: for every line and every byte offset that lies on a character
+    boundary (`byteLen pre` for a split `pre ++ post` of the line — all offsets `ast` reports), the
+    converted column is the number of characters before it.  Before the fix `to_span` used the byte
+    offset itself, which is wrong as soon as `pre` contains a non-ASCII character. -/
+theorem char_column_on_boundary (pre post : Str) :
+    charColumn (pre ++ post) (byteLen pre) = pre.length := by
+  rw [← utf8Bytes_eq]; exact charColumn_boundary pre post
+
+/-- `to_span` of a single-line node covering the token `tok` (non-empty) on line `k`, whose AST offsets
+    are the byte lengths of what precedes its start and its end: the span's columns are the
+    character positions of the token. -/
+theorem to_span_token (lines : List Str) (k : Nat) (pre tok post : Str) (htok : tok ≠ [])
+    (hline : lines.getD (k - 1) [] = pre ++ tok ++ post) :
+    toSpan lines k (byteLen pre) k (byteLen (pre ++ tok))
+      = ⟨⟨k, pre.length⟩, ⟨k, pre.length + tok.length⟩⟩ := by
+  have hb : byteLen (pre ++ tok) ≠ 0 := by
+    cases tok with
+    | nil => exact absurd rfl htok
+    | cons c cs =>
+      have := utf8Len_pos c
+      rw [← utf8Bytes_eq, utf8Bytes_append]
+      simp only [utf8Bytes]; omega
+  unfold toSpan
+  simp only [hb, ↓reduceIte]
+  split
+  · rename_i h0
+    subst h0
+    have h1 := char_column_on_boundary pre (tok ++ post)
+    have h2 := char_column_on_boundary (pre ++ tok) post
+    simp only [hline, List.append_assoc] at h1 h2 ⊢
+    rw [h1, h2]; simp
+  · have h1 := char_column_on_boundary pre (tok ++ post)
+    have h2 := char_column_on_boundary (pre ++ tok) post
+    simp only [hline, List.append_assoc] at h1 h2 ⊢
+    rw [h1, h2]; simp
+
+/-- **C29 (markers under the token, end to end)**: if the span comes from `to_span` of a node covering
+    token `tok` on line `k` (linecache line `pre ++ tok ++ post`, displayed line `pre ++ tok ++ post'`),
+    the marker row has `|pre| − r` blanks and exactly `|tok|` markers: in source coordinates (body index
+    + `r`) the markers cover exactly the characters of `tok`, whatever non-ASCII text precedes it. -/
+theorem markers_under_token (src lines : List Str) (k : Nat) (pre tok post post' : Str) (htok : tok ≠ [])
+    (hline : lines.getD (k - 1) [] = pre ++ tok ++ post) (hsrc : srcLine src k = pre ++ tok ++ post')
+    (hk : 1 ≤ k ∧ k ≤ src.length) (label : Option Str) (maxLn : Nat) (prim : Bool) (pfx : Nat) (out : List Str)
+    (h : renderSnippet src (toSpan lines k (byteLen pre) k (byteLen (pre ++ tok))) label maxLn prim pfx = .ok out) :
+    ∃ r tail, r ≤ pre.length ∧
+      MarkerUnder out k ((srcLine src k).drop r) (pre.length - r) tok.length (if prim then '^' else '-') tail := by
+  rw [to_span_token lines k pre tok post htok hline] at h
+  have hin : InSource src ⟨⟨k, pre.length⟩, ⟨k, pre.length + tok.length⟩⟩ := by
+    refine ⟨hk.1, hk.2, ?_, ?_⟩ <;> simp [hsrc] <;> omega
+  have hv : Span.Valid ⟨⟨k, pre.length⟩, ⟨k, pre.length + tok.length⟩⟩ := Or.inr ⟨rfl, by simp⟩
+  obtain ⟨r, tail, h1, _, _, hs, _⟩ := markers_under_columns src _ label maxLn prim pfx out hin hv h
+  refine ⟨r, tail, h1, ?_⟩
+  have := hs rfl
+  simpa using this
+
+example : charColumn "s = \"é字\"; x = y".toList (byteLen "s = \"é字\"; x = ".toList) = 14
+    ∧ byteLen "s = \"é字\"; x = ".toList = 17 := by decide
+
 end GuppyVerif.Render
